@@ -383,7 +383,20 @@ pub fn filter_atom(pair: Pair<Rule>) -> Parsed<FilterAtom> {
             for r in rule.into_inner() {
                 match r.as_rule() {
                     Rule::not_op => not = true,
-                    Rule::test => test_expr = Some(test(r)?),
+                    Rule::test => {
+                        let t = test(r)?;
+                        // RFC 9535 2.4.3: a function used as a test has to return a logical
+                        // (or nodes) result; length, count and value return a value
+                        if let Test::Function(tf) = &t {
+                            if tf.is_comparable() {
+                                return Err(JsonPathError::InvalidJsonPath(format!(
+                                    "Function {} returns a value and can not be used as a test",
+                                    tf
+                                )));
+                            }
+                        }
+                        test_expr = Some(t)
+                    }
                     _ => (),
                 }
             }
